@@ -39,11 +39,15 @@ pub fn gen_script(rng: &mut Rng, sc: &Scenario, d: &DataGen, cfg: ScriptCfg) -> 
             });
         } else if r < 0.78 {
             ops.push(Op::WeightedData);
-        } else if r < 0.84 && cfg.allow_clone && sc.model.kind == ModelKind::Hand {
-            ops.push(Op::CloneAndCompare);
-        } else if r < 0.88 && cfg.allow_into_seq && !converted {
-            converted = true;
-            ops.push(Op::IntoSequential);
+        } else if r < 0.84 {
+            if cfg.allow_clone && sc.model.kind == ModelKind::Hand {
+                ops.push(Op::CloneAndCompare);
+            }
+        } else if r < 0.88 {
+            if cfg.allow_into_seq && !converted {
+                converted = true;
+                ops.push(Op::IntoSequential);
+            }
         } else if r < 0.88 + cfg.p_fit && !fitted {
             fitted = true;
             if !sc.mrhs && rng.chance(0.6) {
